@@ -30,7 +30,6 @@ import logging
 import os
 import shutil
 import tempfile
-import zlib
 from collections.abc import Callable, Iterator, Mapping, Sequence
 from io import BytesIO
 from typing import TYPE_CHECKING, Any
@@ -52,6 +51,7 @@ from .objects import (
     ShaFile,
     Tag,
     Tree,
+    _decompress,
     hex_to_sha,
     sha_to_hex,
 )
@@ -142,8 +142,9 @@ class DumbHTTPObjectStore(BaseObjectStore):
         except OSError:
             raise KeyError(sha)
 
-        # Decompress and parse the object
-        decompressed = zlib.decompress(compressed)
+        # Decompress and parse the object. The data comes from the remote, so
+        # bound the inflated size like for local loose objects.
+        decompressed = _decompress(compressed)
 
         # Parse header
         header_end = decompressed.find(b"\x00")
